@@ -683,6 +683,24 @@ fn add_path_data<W: Write>(
         }
 
         if i != 0 {
+            // When decoding a Catmull segment, a first point that repeats
+            // the segment's start is merged into it so such a point is
+            // written once more to survive.
+            let prev = control_points[i - 1];
+
+            if point.path_type.is_none()
+                && prev.path_type == Some(PathType::CATMULL)
+                && (pos.x + point.pos.x) as i32 == (pos.x + prev.pos.x) as i32
+                && (pos.y + point.pos.y) as i32 == (pos.y + prev.pos.y) as i32
+            {
+                write!(
+                    writer,
+                    "{x}:{y}|",
+                    x = pos.x + point.pos.x,
+                    y = pos.y + point.pos.y
+                )?;
+            }
+
             write!(
                 writer,
                 "{x}:{y}{count}",
